@@ -72,7 +72,9 @@ def classify_count(fx, f, bi, t):
     wrap = Flow(f, table=COUNT_FLOW, through_agg=True, through_bin=False, through_field=True,
                 skip_variants=("Break", "Err", "None"),
                 agg_filter=lambda rv: rv.get("adt") in ("core::option::Option", "core::result::Result",
-                                                        "core::ops::control_flow::ControlFlow"))
+                                                        "core::ops::control_flow::ControlFlow")
+                or (rv.get("ak") == "adt" and len(rv.get("fields", [])) == 1 and
+                    (rv.get("adt") or "").split("::")[0] in ("libfs", "libxcp")))      # `RangeCopy::Copied(n)`
     plain, _p = wrap.run([t["dest"]["l"]])
     fw = [l for l in plain if l in rl]
     # a callee whose *result* is returned directly (tail call) also forwards
@@ -80,7 +82,9 @@ def classify_count(fx, f, bi, t):
         classes.add("FORWARDED")
         details.append("returned to the caller")
     loops = cfg.loops()
-    in_loops = [(h, body) for h, body in loops.items() if bi in body]
+    # (a variant-threaded view holds the call's block in one copy per known-fact state: `src_block` names the original)
+    copies = set(i_ for i_, b_ in enumerate(f.blocks) if b_.get("src_block", i_) == bi) or {bi}
+    in_loops = [(h, body) for h, body in loops.items() if copies & body]
     sig = None
     for l in tainted:
         for site, how in du.uses.get(l, []):
@@ -106,7 +110,7 @@ def classify_count(fx, f, bi, t):
                                 details.append("added to `%s`, loop continues while it is short of the request"
                                                % f.name_of_local.get(acc, "_%d" % acc))
                                 callee = q.names(t)[1] or q.names(t)[0]
-                                if not _zero_progress_exit(f, body, tainted) and callee not in NONZERO:
+                                if not _zero_progress_exit(f, body, tainted, h) and callee not in NONZERO:
                                     classes.add("NO-ZERO-EXIT")
                     if "ACCUMULATED" not in classes:
                         details.append("added to `%s` but no enclosing loop tests it" % f.name_of_local.get(acc, "_%d" % acc))
@@ -224,7 +228,35 @@ def _fails_on_zero(f, tainted):
     return False
 
 
-def _zero_progress_exit(f, body, tainted):
+def _zero_not_forwarded(f, tainted):
+    """The count is tested against 0 and on the zero branch it is not what the function hands back (`Ok(0) =>
+    RangeCopy::Eof`): callers never see a zero count from this function."""
+    cfg = cfg_of(f)
+    rl = _ret_locals_deep(f)
+    fw = set()
+    for bi, b in enumerate(f.blocks):
+        if b.get("cleanup"):
+            continue
+        for s_ in b["stmts"]:
+            rv = s_["rv"]
+            if rv["k"] == "agg" and any(op_local(o_) in tainted for o_ in rv.get("fields", [])):
+                fw.add(bi)
+            elif rv["k"] == "use" and op_local(rv["op"]) in tainted and s_["lhs"]["l"] in rl:
+                fw.add(bi)
+    if not fw:
+        return False
+    for u, b in enumerate(f.blocks):
+        t = b["term"]
+        if b.get("cleanup") or t["k"] != "switch" or t.get("op_ty") in ("bool", "isize"):
+            continue
+        if op_local(t["op"]) in tainted:
+            for val, tb in t["targets"]:
+                if int(val) == 0 and tb != t["otherwise"] and not (fw & cfg.reach([tb])):
+                    return True
+    return False
+
+
+def _zero_progress_exit(f, body, tainted, header=None):
     """The retry loop has a way out when the callee makes no progress (count == 0): a test of the count
     against 0 whose zero branch leaves the loop or fails. Without it a source that ends early spins forever."""
     cfg = cfg_of(f)
@@ -238,6 +270,11 @@ def _zero_progress_exit(f, body, tainted):
         # stays in the loop forever?  it leaves if it cannot come back to the loop header region without failing
         return not any(x in body for x in r if x != tb) and False
 
+    def gone(tb):
+        """From tb the loop is left for good: its header cannot be reached again (e.g. the zero count becomes an
+        `Eof` variant that the caller's match turns into `break`)."""
+        return header is not None and header not in cfg.reach([tb], blocked=set(sig))
+
     for u in sorted(body):
         t = f.blocks[u]["term"]
         if t["k"] != "switch":
@@ -245,7 +282,7 @@ def _zero_progress_exit(f, body, tainted):
         l = op_local(t["op"])
         if t.get("op_ty") not in ("bool", "isize") and l in tainted:
             for val, tb in t["targets"]:
-                if int(val) == 0 and (tb not in body or _only_fails(f, tb, body, sig)):
+                if int(val) == 0 and (tb not in body or _only_fails(f, tb, body, sig) or gone(tb)):
                     return True
         if t.get("op_ty") == "bool":
             for site, whole in du.defs.get(l, []):
@@ -257,7 +294,7 @@ def _zero_progress_exit(f, body, tainted):
                     ca, cb = rv["a"].get("c"), rv["b"].get("c")
                     if (la in tainted and cb is not None and cb.get("v") == 0) or (lb in tainted and ca is not None and ca.get("v") == 0):
                         for tb in set([b2 for _, b2 in t["targets"]] + [t["otherwise"]]):
-                            if tb not in body or _only_fails(f, tb, body, sig):
+                            if tb not in body or _only_fails(f, tb, body, sig) or gone(tb):
                                 return True
     return False
 
@@ -330,7 +367,7 @@ def _sview(fx, f, _memo={}):
     if k not in _memo:
         try:
             import views
-            _memo[k] = views.view(fx, f.path, depth=3, threaded=False) or f
+            _memo[k] = views.view(fx, f.path, depth=3, threaded=True) or f
         except Exception:
             _memo[k] = f
     return _memo[k]
@@ -363,7 +400,7 @@ def run(fx, cfgname="A", reach=None):
                     flow = Flow(fv, table=COUNT_FLOW, through_agg=True, through_bin=False, through_field=True,
                                 skip_variants=("Break", "Err", "None"))
                     tn, _p = flow.run([t["dest"]["l"]])
-                    if _fails_on_zero(fv, tn) and f.path not in NONZERO:
+                    if (_fails_on_zero(fv, tn) or _zero_not_forwarded(fv, tn)) and f.path not in NONZERO:
                         NONZERO.add(f.path)
                         changed = True
                 if "FORWARDED" in cls and not (cls & {"ACCUMULATED", "COMPARED"}):
